@@ -24,7 +24,13 @@
    [text_faithful_exact]).  "equal => same text" holds for every [produced_wf] object.
 
    Part 3: the same for the objects reachable by a history of library calls (Model/History.v), through
-   [history_all_produced_wf]. *)
+   [history_all_produced_wf].
+
+   Part 4: no object reachable by a history has the second shape ([history_no_lone_empty], no side
+   condition): every operation either ends with uriFixEmptyTrailSegment where it rebuilds the path
+   (parser, uriAddBaseUri, uriNormalizeSyntax with the path bit, and -- since the repair of the
+   domain-root branch -- uriRemoveBaseUri) or copies the path and host of an operand.  For reachable
+   objects the exclusion is therefore two shapes, and exactly these two ([reachable_faithful_exact]). *)
 From Coq Require Import ZArith Lia List Bool.
 From UP Require Import Base.Chars Base.Regex Model.Uri Model.Common Model.Compare Model.Parse Model.Recompose
   Spec.Identity Spec.NormalWf Spec.Split Spec.Unparse Spec.Reread
@@ -32,6 +38,7 @@ From UP Require Import Base.Chars Base.Regex Model.Uri Model.Common Model.Compar
   Proofs.RereadWfb Proofs.RereadProofs Proofs.ParsedProduced.
 From UP Require Import Model.History Proofs.RereadAll.
 From UP Require Spec.Rfc3986.
+From UP Require Model.Resolve Model.Shorten Model.Normalize Proofs.ResolveProofs Proofs.ShortenProofs Proofs.RereadResolve.
 Import ListNotations.
 Local Open Scope N_scope.
 
@@ -380,4 +387,114 @@ Proof.
   intros Hok Hu Hok' Hv. apply equal_iff_same_text_produced.
   - exact (history_all_produced_wf ops Hok i u Hu).
   - exact (history_all_produced_wf ops' Hok' j v Hv).
+Qed.
+
+(* ================================================================ 4. reachable objects have no lone empty
+   segment, so only two shapes are excluded for them *)
+Section NoLoneEmpty.
+  Import Model.Resolve Model.Shorten Model.Normalize.
+
+  Lemma lone_set_owner o u : lone_empty_hostless (set_owner o u) = lone_empty_hostless u. Proof. reflexivity. Qed.
+  Lemma lone_set_fragment f u : lone_empty_hostless (set_fragment f u) = lone_empty_hostless u. Proof. reflexivity. Qed.
+  Lemma lone_set_query f u : lone_empty_hostless (set_query f u) = lone_empty_hostless u. Proof. reflexivity. Qed.
+  Lemma lone_set_userInfo f u : lone_empty_hostless (set_userInfo f u) = lone_empty_hostless u. Proof. reflexivity. Qed.
+
+  (* uriAddBaseUriExMm ends with uriFixEmptyTrailSegment: never, whatever the operands *)
+  Lemma add_base_no_lone_empty compat rel base : lone_empty_hostless (snd (add_base compat rel base)) = false.
+  Proof.
+    unfold add_base, add_base_impl. destruct (scheme base); [|reflexivity]. cbv zeta. cbn [snd].
+    rewrite lone_set_fragment. apply ShortenProofs.lone_fixtrail.
+  Qed.
+
+  (* uriNormalizeSyntaxExMm: the path step ends with uriFixEmptyTrailSegment, the others keep host and path *)
+  Lemma normalize_no_lone_empty mask u : lone_empty_hostless u = false -> lone_empty_hostless (normalize mask u) = false.
+  Proof.
+    intros H. unfold normalize. destruct (mask =? 0); [exact H|]. cbv zeta. rewrite lone_set_owner.
+    destruct (bit mask M_FRAGMENT); rewrite ?lone_set_fragment;
+      (destruct (bit mask M_QUERY); rewrite ?lone_set_query);
+      (destruct (bit mask M_PATH); [apply ShortenProofs.lone_fixtrail|]);
+      (destruct (bit mask M_USER_INFO); rewrite ?lone_set_userInfo);
+      destruct u as [sc ui ht i4 i6 ifu po ps qu fr ab ow];
+      destruct (bit mask M_SCHEME), (bit mask M_HOST);
+      cbn [scheme userInfo hostText ip4 ip6 ipFuture set_scheme];
+      try exact H;
+      destruct ifu as [f|]; try reflexivity; destruct ht as [h|], i4 as [o4|], i6 as [o6|]; first [exact H|reflexivity].
+  Qed.
+
+  Lemma make_owner_no_lone_empty u : lone_empty_hostless (make_owner u) = lone_empty_hostless u.
+  Proof. reflexivity. Qed.
+
+  Definition all_not_lone (st : store) : Prop := forall i u, st i = Some u -> lone_empty_hostless u = false.
+
+  Lemma all_not_lone_put st i o : all_not_lone st -> (forall u, o = Some u -> lone_empty_hostless u = false) ->
+    all_not_lone (put st i o).
+  Proof.
+    intros Hst Ho j u Hj. unfold put in Hj. destruct (Nat.eqb j i); [apply Ho; exact Hj|apply (Hst j); exact Hj].
+  Qed.
+
+  Lemma step_not_lone st op : all_not_lone st -> all_not_lone (run_step st op).
+  Proof.
+    intros Hst. destruct op as [i s|d r b compat|d s b dr|i mask|i|i]; cbn [run_step].
+    - apply all_not_lone_put; [exact Hst|]. intros u Hu. destruct (parse s) as [u'|pos] eqn:Ep; [|discriminate Hu].
+      injection Hu as Hu. subst u'. exact (proj1 (proj2 (text_faithful_split u (parsed_text_faithful s u Ep)))).
+    - destruct (st r) as [ur|]; [|exact Hst]. destruct (st b) as [ub|]; [|exact Hst].
+      apply all_not_lone_put; [exact Hst|]. intros u Hu. apply RereadResolve.on_success_inv in Hu.
+      pose proof (add_base_no_lone_empty compat ur ub) as K. rewrite Hu in K. exact K.
+    - destruct (st s) as [us|] eqn:Es; [|exact Hst]. destruct (st b) as [ub|]; [|exact Hst].
+      apply all_not_lone_put; [exact Hst|]. intros u Hu. apply RereadResolve.on_success_inv in Hu.
+      pose proof (ShortenProofs.remove_base_no_lone_empty dr us ub (Hst s us Es)) as K. rewrite Hu in K. exact K.
+    - destruct (st i) as [u0|] eqn:Ei; [|exact Hst].
+      apply all_not_lone_put; [exact Hst|]. intros u Hu. injection Hu as Hu. subst u.
+      apply normalize_no_lone_empty. exact (Hst i u0 Ei).
+    - destruct (st i) as [u0|] eqn:Ei; [|exact Hst].
+      apply all_not_lone_put; [exact Hst|]. intros u Hu. injection Hu as Hu. subst u.
+      rewrite make_owner_no_lone_empty. exact (Hst i u0 Ei).
+    - apply all_not_lone_put; [exact Hst|]. intros u Hu. discriminate Hu.
+  Qed.
+
+  Lemma run_not_lone ops : forall st, all_not_lone st -> all_not_lone (run st ops).
+  Proof.
+    induction ops as [|op r IH]; intros st Hst; [exact Hst|].
+    unfold run. cbn [fold_left]. apply IH. apply step_not_lone. exact Hst.
+  Qed.
+End NoLoneEmpty.
+
+(* every object in the store after any history of parse, resolve, create-reference, normalize,
+   make-owner and free steps: never host-less with the single empty segment as path.  No side
+   condition on the history *)
+Theorem history_no_lone_empty ops i u : run empty_store ops i = Some u -> lone_empty_hostless u = false.
+Proof.
+  intros Hu. apply (run_not_lone ops empty_store) with (i := i); [|exact Hu]. intros j v Hj. discriminate Hj.
+Qed.
+
+(* the two shapes left for reachable objects *)
+Definition text_faithful_reachable (u : uri) : bool := negb (rootless_leading_empty u) && negb (ip4_name u).
+
+Lemma reachable_text_faithful ops i u : run empty_store ops i = Some u ->
+  text_faithful u = text_faithful_reachable u.
+Proof.
+  intros Hu. unfold text_faithful, text_faithful_reachable. rewrite (history_no_lone_empty ops i u Hu).
+  cbn [negb]. rewrite andb_true_r. reflexivity.
+Qed.
+
+Theorem equal_iff_same_text_reachable_two ops ops' i j u v :
+  normalize_steps_ok norm_outside_findings empty_store ops -> run empty_store ops i = Some u ->
+  normalize_steps_ok norm_outside_findings empty_store ops' -> run empty_store ops' j = Some v ->
+  text_faithful_reachable u = true -> text_faithful_reachable v = true ->
+  (equals_uri (Some u) (Some v) = true <-> to_text u = to_text v).
+Proof.
+  intros Hok Hu Hok' Hv Fu Fv. apply (equal_iff_same_text_reachable ops ops' i j u v Hok Hu Hok' Hv).
+  - rewrite (reachable_text_faithful ops i u Hu). exact Fu.
+  - rewrite (reachable_text_faithful ops' j v Hv). exact Fv.
+Qed.
+
+(* ... and exactly these two: a reachable object is equal to every parsed object with its text iff it has
+   neither shape *)
+Theorem reachable_faithful_exact ops i u :
+  normalize_steps_ok norm_outside_findings empty_store ops -> run empty_store ops i = Some u ->
+  (text_faithful_reachable u = true <->
+   forall s v, parse s = POk v -> to_text v = to_text u -> equals_uri (Some u) (Some v) = true).
+Proof.
+  intros Hok Hu. rewrite <- (reachable_text_faithful ops i u Hu).
+  exact (text_faithful_exact u (history_all_produced_wf ops Hok i u Hu)).
 Qed.
